@@ -1251,7 +1251,9 @@ def docs_separator_rule(syn, crate, prop, rule="C15.R4"):
             lit = S.unquote(e["tokens"][0]) if e["tokens"] and isinstance(e["tokens"][0], str) else ""
             if re.match(r"^/\*\*\{", lit):
                 verbatim.append(e["line"])
-    sanit = [e for e in S.events(fn, "mcall") if e["method"] in ("lines", "split", "replace") and "\\n\\n" in " ".join(e["args"])]
+    # the blank-line normalisation must be part of the routine whose result is interpolated into the wrappers (C15.R3)
+    esc = [e for e in S.events(fn, "let") if 'replace("*/",' in S.squash(e["init"]) and S.squash(e["init"]).startswith("|")]
+    sanit = [e for e in esc if re.search(r'replace\("\\n\\n",', S.squash(e["init"]))]
     r.inst(producer="utils::parse_docs", verbatim_block_doc_at=verbatim, blank_line_sanitiser=bool(sanit))
     if not verbatim and not sanit:
         r.fail(prop, "anchor-missing block doc wrapper", "cannot find the block-doc branch of parse_docs", fn["file"], fn["line"])
